@@ -242,7 +242,7 @@ def install(E):
     def clone_ens(c):
         return same_structure(c.h0, c.self.t, c.h1, c.res.t) + [
             ('wf', wfK(c.h1, c.res.t)),
-            ('fresh', z3.And(c.res.t >= c.h0.alloc, fresh_kripke(c.h0, c.h1, c.res.t)))]
+            ('fresh', z3.And(c.res.t >= c.h0.alloc, c.res.t < c.h1.alloc, fresh_kripke(c.h0, c.h1, c.res.t)))]
 
     def clone_l1(lc):
         c, h, k = lc.c, lc.h, lc.c.self.t
@@ -272,7 +272,7 @@ def install(E):
     def sub_ens(c):
         return same_structure(c.h0, c.self.t, c.h1, c.res.t, keep=c.V.x.mem) + [
             ('wf', wfK(c.h1, c.res.t)),
-            ('fresh', z3.And(c.res.t >= c.h0.alloc, fresh_kripke(c.h0, c.h1, c.res.t)))]
+            ('fresh', z3.And(c.res.t >= c.h0.alloc, c.res.t < c.h1.alloc, fresh_kripke(c.h0, c.h1, c.res.t)))]
 
     reg(Contract(
         'Kripke.get_substructure', 'kripke', [('self', 'kripke'), ('V', 'setlike')], ret='kripke',
